@@ -45,11 +45,22 @@ var familyMembers = []member{
 	{"claims-admin", map[string]any{"claims": `{"role":"admin","aud":"backoffice"}`}, 5 * time.Minute, map[string]any{"role": "admin", "aud": "backoffice"}},
 	{"ttl-30s-claims-admin", map[string]any{"ttl": "30s", "claims": `{"role":"admin","aud":"backoffice"}`}, 30 * time.Second,
 		map[string]any{"role": "admin", "aud": "backoffice"}},
+	// a lifetime equal to the margin the finalizer keeps when caching
+	{"ttl-5s", map[string]any{"ttl": "5s"}, 5 * time.Second, map[string]any{"role": "reader"}},
+}
+
+// subjects: the token is the subject's own (sub = its id), also for ids and attributes that render alike
+var familySubjects = map[string]*subject.Subject{
+	"":                    {ID: "alice", Attributes: map[string]any{"role": "r"}},
+	"alice+role":          {ID: "alice", Attributes: map[string]any{"role": "admin"}},
+	"alice-json-in-id":    {ID: `alice{"role":"admin"}`},
+	"alice-no-attributes": {ID: "alice"},
+	"bob":                 {ID: "bob", Attributes: map[string]any{"role": "admin"}},
 }
 
 type FamilyCase struct {
-	Part  string   `json:"part"` // "families"
-	Order []string `json:"members_executed_in_this_order"`
+	Part  string   `json:"part"`                           // "families"
+	Order []string `json:"members_executed_in_this_order"` // "<member>" or "<member>@<subject>"
 }
 
 func memberByName(n string) (member, bool) {
@@ -84,10 +95,23 @@ func execFamily(fc *FamilyCase) (sig, summary string) {
 	}
 
 	mgmt := management.VerifNewManagementHandler(reg, errorhandler.New())
-	sub := &subject.Subject{ID: "alice", Attributes: map[string]any{"role": "r"}}
 
-	for i, name := range fc.Order {
+	// every step once at T0 and once more 6 s later (a cached token may be handed out again, an expired one never)
+	steps := append(append([]string{}, fc.Order...), fc.Order...)
+
+	defer env.SetNow(env.T0)
+
+	for i, step := range steps {
+		name, subName, _ := strings.Cut(step, "@")
 		m, _ := memberByName(name)
+		sub := familySubjects[subName]
+		nowT := env.T0
+
+		if i >= len(fc.Order) {
+			nowT = env.T0.Add(6 * time.Second)
+		}
+
+		env.SetNow(nowT)
 
 		fin := proto
 		if m.Conf != nil {
@@ -132,16 +156,36 @@ func execFamily(fc *FamilyCase) (sig, summary string) {
 
 		before := "nothing"
 		if i > 0 {
-			before = strings.Join(fc.Order[:i], ",")
+			before = strings.Join(steps[:i], ",")
 		}
 
-		now := float64(env.T0.Unix())
+		now := float64(nowT.Unix())
 
-		expect := map[string]any{"sub": "alice", "iss": "heimdall", "iat": now, "nbf": now, "exp": now + m.TTL.Seconds()}
-		for k, v := range expect {
-			if !reflect.DeepEqual(claims[k], v) {
-				return "families/system-claim-" + k + "-not-that-of-the-issuing-rule/" + name + "/after-" + before,
-					fmt.Sprintf("order=%v: %s=%v, want %v (ttl of %s is %s)", fc.Order, k, claims[k], v, name, m.TTL)
+		if claims["sub"] != sub.ID {
+			return "families/token-of-another-subject-handed-out/" + subName + "/after-" + before,
+				fmt.Sprintf("order=%v: step %d (%s): sub=%v, the subject is %q", fc.Order, i, step, claims["sub"], sub.ID)
+		}
+
+		if i >= len(fc.Order) {
+			// second pass: fresh or from the cache, but valid now and issued for the member's lifetime
+			exp, _ := claims["exp"].(float64)
+			iat, _ := claims["iat"].(float64)
+
+			switch {
+			case exp <= now:
+				return "families/expired-token-handed-out/" + name,
+					fmt.Sprintf("order=%v: 6 s later %s hands out a token with exp=%v (now %v)", fc.Order, step, claims["exp"], now)
+			case exp-iat != m.TTL.Seconds():
+				return "families/system-claim-exp-not-that-of-the-issuing-rule/" + name + "/after-" + before,
+					fmt.Sprintf("order=%v: exp-iat=%v, ttl of %s is %s", fc.Order, exp-iat, name, m.TTL)
+			}
+		} else {
+			expect := map[string]any{"iss": "heimdall", "iat": now, "nbf": now, "exp": now + m.TTL.Seconds()}
+			for k, v := range expect {
+				if !reflect.DeepEqual(claims[k], v) {
+					return "families/system-claim-" + k + "-not-that-of-the-issuing-rule/" + name + "/after-" + before,
+						fmt.Sprintf("order=%v: %s=%v, want %v (ttl of %s is %s)", fc.Order, k, claims[k], v, name, m.TTL)
+				}
 			}
 		}
 
@@ -199,6 +243,22 @@ func runFamilies(c *engine.Ctx, idx *int) {
 
 			for _, d := range familyMembers {
 				eval([]string{a.Name, b.Name, d.Name})
+			}
+		}
+	}
+
+	// every ordered pair and triple of subjects through one member (and through two)
+	subs := []string{"alice+role", "alice-json-in-id", "alice-no-attributes", "bob"}
+
+	for _, m := range []string{"prototype", "claims-admin"} {
+		for _, s1 := range subs {
+			for _, s2 := range subs {
+				eval([]string{m + "@" + s1, m + "@" + s2})
+				eval([]string{m + "@" + s1, "ttl-30s@" + s2})
+
+				for _, s3 := range subs {
+					eval([]string{m + "@" + s1, m + "@" + s2, m + "@" + s3})
+				}
 			}
 		}
 	}
